@@ -6,7 +6,7 @@ props = [json.loads(l) for l in open(os.path.join(V, "properties.jsonl"))]
 
 # id -> (technique, level text, level note, design ref)
 CLAIMED = {
- "C01": ("TLC exhaustive enumeration of the Store module; every printed edge replayed against store.Dir",
+ "C01": ("TLC exhaustive enumeration of the Store module; every printed edge, every 5-step history (exhaustive) and simulated 30-step histories replayed against store.Dir (one long-lived object per history)",
          "TLC checks AuthIffLastPw / ListExistsAgree and the action properties on the bounded Store model and prints every transition; each transition (pre-state, operation, result, post-state) is materialised and executed against the real store.Dir with concretised passwords (incl. every truncation / near-miss of the stored password), so every reachable (state, operation) pair of the bounded model is a test of the code.",
          "Bounded model (2-3 users, 3-4 passwords, 2-3 parameter sets). Projection pi and the independent digest recomputation (x/crypto) are trusted. Passwords beyond a few KiB not exercised.",
          "4/C01"),
@@ -39,8 +39,8 @@ CLAIMED = {
          "AES-GCM treated as ideal AEAD. Time is back-dated with the factory's own sealToken rather than waited for (except one 2 s wait). Bounded model: 2 instances, 2 tokens, 4 time steps.",
          "4/C07"),
  "C12": ("TLC safety + liveness (LoginConverges) on Agent in all modes, Store edges for the upgradeable flag and written parameter set, gated/ungated upgrade scenarios on the real agent with trace validation and byte-level snapshots",
-         "The `upgradeable` flag and the parameter set of every written record are checked on every Store edge; the Agent model is checked for UpgradeKeepsPasswordAndAdmin, UpgradeOnlyAfterLogin, NoUpgradeWhenOff and the liveness property LoginConverges; on the real agent, idle-convergence scenarios (record rewritten under the default set, same password, admin flag and aux), wrong-password / up-to-date / upgrades-off / remote-mode scenarios (directory byte-identical), the stale-upgrade counterexample and simulated behaviours are executed and their traces validated against TraceAgent.",
-         "Remote mode is exercised with an unreachable or stalled master only (no second agent as master).",
+         "The `upgradeable` flag and the parameter set of every written record are checked on every Store edge; the Agent model is checked for UpgradeKeepsPasswordAndAdmin, UpgradeOnlyAfterLogin, NoUpgradeWhenOff and the liveness property LoginConverges; on the real agent, idle-convergence scenarios (record rewritten under the default set, same password, admin flag and aux), wrong-password / up-to-date / upgrades-off / remote-mode scenarios (directory byte-identical), the stale-upgrade counterexample and simulated behaviours are executed and their traces validated against TraceAgent. The two-host deployment (Sync.tla: master, rsync-fed slave, forwarded upgrade requests, configuration roll-out and retirement) is model-checked exhaustively incl. liveness (Converges), its wrong variants are refuted, and generated histories are replayed on two real agents with real rsync runs (directories projected and compared after every step).",
+         "Bounded models (Agent: 3 clients; Sync: 2 users, 2 passwords, 2 parameter sets, 3-5 management steps). The master of the Sync replay runs in the same process as the slave; rsync runs between two local directories (no ssh).",
          "4/C12"),
  "C06": ("TLC enumeration of the WebApi authorisation matrix; every (state, request) edge executed against the real handler mux on the real dispatcher",
          "TLC checks EffectOnlyIfAuthorised, RefusedChangesNothing, NoListDisclosure, NeverBothCredentials and InvalidTokenNeverWorks on the WebApi model and prints every edge (endpoint x session credential kind x old-password kind x target x body shape x reachable state); each edge is one HTTP request through newWebHandler and the real dispatcher with real tokens (logins, a demoted administrator's token, expired / future / tampered / other-instance / garbage tokens); status class, disclosed list, issued token identity and a byte-level snapshot (refusals) or projection (effects) of the store are compared with the model.",
